@@ -194,7 +194,12 @@ class State:
         if isinstance(goal, bool):
             goal = z3.BoolVal(goal)
         self.obligations.append(Obligation(name, kind, self.pc, goal, info))
-        self.assume(goal)
+        try:
+            self.assume(goal)
+        except Infeasible:
+            # the obligation is trivially false on this path: keep the path (and the recorded
+            # obligation) instead of discarding it as infeasible
+            raise PathEnd()
 
     def effect(self, kind, **info):
         self.trace.append((kind, info))
